@@ -291,6 +291,8 @@ def _respell(pieces, how):
         text = " \t" + text + " \t "
     if how == "comment":
         text = "; leading comment 'x \"y\n\n" + text + " ; trailing: mov r0, r1 \"quoted\" 'c\n\n ; another\n"
+    if how == "comment-tight":
+        text = text.rstrip("\n") + ";no blank before this comment\n"
     if how == "blank":
         text = "\n\n \n" + text + "\n\n\t\n"
     if how == "eof-blanks":
@@ -351,9 +353,9 @@ def rule_respell(ck):
             raise Unknown(f"corpus statement {plain!r} does not parse cleanly (errors {errs0}, raised {raised0}, stopped at {pos0})")
         want = _tree_norm(r0)
         idx = CORPUS.index(pieces)
-        hows = ("upper", "spaces", "tight", "comment", "blank", "eof", "eof-blanks")
+        hows = ("upper", "spaces", "tight", "comment", "comment-tight", "blank", "eof", "eof-blanks")
         if getattr(ck, "tier", "quick") == "quick" and idx % 2:
-            hows = ("upper", "comment", "eof-blanks")        # every second statement gets the short list in the quick tier
+            hows = ("upper", "comment", "comment-tight", "eof-blanks")        # every second statement gets the short list in the quick tier
         for how in hows:
             text = _respell(pieces, how)
             if how == "tight" and text == plain:
